@@ -104,6 +104,12 @@ CHECKS = {
             "reflexive/symmetric/transitive/trichotomy laws are checked on the grid; frozen and non-frozen attribute protocols; generic parameterisations compare equal; all "
             "histories of depth <= 3 over setattr/copy/deepcopy/replace(good)/replace(bad) from five start states are checked against a (values, set-record, sharing) model.",
             "The standard library's dataclasses module is the reference for the rule tables; eq=False+order=True is UNSPEC."),
+    'C18': ("exhaustive enumeration of handler-source subsets x target types x nesting shapes x handler forms x directions on real generated class nests; marking-converter oracle",
+            "Each of the five handler sources is a marking converter that multiplies by its own prime on the way in and divides on the way out; all 2^5 source subsets (nearest-class "
+            "handlers both own and inherited) x 4 target kinds x 13 nesting shapes (incl. Any-typed container members, nested and inherited fields) x 3 handler forms are built as real "
+            "Outer/Inner class nests with the global handler registered or not, and from_data, into_data and convert must show the prime of the source the documented precedence "
+            "selects; mapping-form handlers are checked not to match parameterised or subclass lookups. Global state is reset between cells.",
+            "Precedence table transcribed from the statement and docs/using/advanced.md."),
     'C19': ("exhaustive enumeration of value pool x sink kind x source kind x the full formatting-option cube on the real IO functions under a non-UTF-8 locale, with pane.io.open recorded; "
             "bounded multi-document write histories",
             "Every pooled typed value is written and read back through every sink/source kind pairing and every one of the 8 JSON and 1 152 YAML option settings (quick: full cube on "
